@@ -61,7 +61,7 @@ def step_spec(draw, kind, scale, allow_blocks=True):
 @st.composite
 def chain_cases(draw):
     ncomp = draw(st.sampled_from([1, 1, 2]))
-    cloud = draw(gen.clouds(min_n=10, max_n=36, max_exp=3, ratios=[0.0, 0.0, 1.0, -10.0], aspects=(1.0, 1.0, 3.0)))
+    cloud = draw(gen.clouds(min_n=10, max_n=36, max_exp=3, ratios=[0.0, 0.0, 1.0, -10.0], aspects=(1.0, 1.0, 3.0), structures=gen.STRUCTURES))
     cloud_b = draw(gen.clouds(min_n=10, max_n=30, max_exp=3, ratios=[0.0, 1.0], aspects=(1.0, 0.5)))
     cloud_b["scale"] = cloud["scale"]  # block spacings are tied to the first cloud's scale
     n, nb = len(cloud["cells"]), len(cloud_b["cells"])
@@ -302,7 +302,7 @@ def check_chain(case, ctx):
 @st.composite
 def vector_cases(draw):
     ncomp = draw(st.integers(2, 3))
-    cloud = draw(gen.clouds(min_n=8, max_n=30, max_exp=3, ratios=[0.0, 1.0, -10.0]))
+    cloud = draw(gen.clouds(min_n=8, max_n=30, max_exp=3, ratios=[0.0, 1.0, -10.0], structures=gen.STRUCTURES))
     n = len(cloud["cells"])
     comps = [draw(step_spec(draw(st.sampled_from(["trend", "spline", "knn", "chain"])), cloud["scale"])) for _ in range(ncomp)]
     data = [[v + 100.0 * (c + 1) for v in draw(gen.data_values(n, "unit"))] for c in range(ncomp)]
@@ -354,7 +354,7 @@ def check_vector(case, ctx):
 # ---------------------------------------------------------------- filter of single gridders
 @st.composite
 def filter_cases(draw):
-    cloud = draw(gen.clouds(min_n=6, max_n=25, max_exp=3, ratios=[0.0, 1.0]))
+    cloud = draw(gen.clouds(min_n=6, max_n=25, max_exp=3, ratios=[0.0, 1.0], structures=gen.STRUCTURES))
     n = len(cloud["cells"])
     kind = draw(st.sampled_from(["trend", "spline", "knn", "linear", "vectorspline"]))
     ncomp = 2 if kind == "vectorspline" else 1
